@@ -52,6 +52,48 @@ func rtypeIface(t types.Type) value {
 			return t.Underlying().(*types.Signature).Results().Len()
 		case "NumMethod":
 			return I.prog.MethodSets.MethodSet(t).Len()
+		case "Kind":
+			return reflectKind(t)
+		case "Elem":
+			switch u := t.Underlying().(type) {
+			case *types.Pointer:
+				return rtypeIface(u.Elem())
+			case *types.Slice:
+				return rtypeIface(u.Elem())
+			case *types.Array:
+				return rtypeIface(u.Elem())
+			case *types.Map:
+				return rtypeIface(u.Elem())
+			case *types.Chan:
+				return rtypeIface(u.Elem())
+			}
+			panic(targetPanic{iface{types.Typ[types.String], "reflect: Elem of invalid type " + t.String()}})
+		case "Key":
+			return rtypeIface(t.Underlying().(*types.Map).Key())
+		case "In":
+			return rtypeIface(t.Underlying().(*types.Signature).Params().At(int(asInt64(args[0]))).Type())
+		case "Out":
+			return rtypeIface(t.Underlying().(*types.Signature).Results().At(int(asInt64(args[0]))).Type())
+		case "IsVariadic":
+			return t.Underlying().(*types.Signature).Variadic()
+		case "PkgPath":
+			if n, ok := t.(*types.Named); ok && n.Obj().Pkg() != nil {
+				return n.Obj().Pkg().Path()
+			}
+			return ""
+		case "Comparable":
+			return types.Comparable(t)
+		case "AssignableTo":
+			return types.AssignableTo(t, rtypeOf(args[0]))
+		case "ConvertibleTo":
+			return types.ConvertibleTo(t, rtypeOf(args[0]))
+		case "Implements":
+			it, ok := rtypeOf(args[0]).Underlying().(*types.Interface)
+			return ok && types.Implements(t, it)
+		case "NumField":
+			return t.Underlying().(*types.Struct).NumFields()
+		case "Len":
+			return int(t.Underlying().(*types.Array).Len())
 		case "MethodByName":
 			name := goStr(args[0], "MethodByName")
 			ms := I.prog.MethodSets.MethodSet(t)
@@ -75,6 +117,99 @@ func rtypeIface(t types.Type) value {
 	pkg := I.prog.ImportedPackage("reflect")
 	rt := types.NewPointer(pkg.Type("rtype").Type())
 	return iface{t: rt, v: b}
+}
+
+func rtypeOf(v value) types.Type {
+	it, ok := v.(iface)
+	if ok {
+		if b, ok := it.v.(*boundIntrinsic); ok && b.kind == "rtype" {
+			return b.data.(types.Type)
+		}
+	}
+	panic(engineErr{"reflect.Type expected"})
+}
+
+// reflectKind maps a static type to its reflect.Kind number.
+func reflectKind(t types.Type) value {
+	k := 0
+	switch u := t.Underlying().(type) {
+	case *types.Basic:
+		switch u.Kind() {
+		case types.Bool:
+			k = 1
+		case types.Int:
+			k = 2
+		case types.Int8:
+			k = 3
+		case types.Int16:
+			k = 4
+		case types.Int32:
+			k = 5
+		case types.Int64:
+			k = 6
+		case types.Uint:
+			k = 7
+		case types.Uint8:
+			k = 8
+		case types.Uint16:
+			k = 9
+		case types.Uint32:
+			k = 10
+		case types.Uint64:
+			k = 11
+		case types.Uintptr:
+			k = 12
+		case types.Float32:
+			k = 13
+		case types.Float64:
+			k = 14
+		case types.Complex64:
+			k = 15
+		case types.Complex128:
+			k = 16
+		case types.String:
+			k = 24
+		case types.UnsafePointer:
+			k = 26
+		}
+	case *types.Array:
+		k = 17
+	case *types.Chan:
+		k = 18
+	case *types.Signature:
+		k = 19
+	case *types.Interface:
+		k = 20
+	case *types.Map:
+		k = 21
+	case *types.Pointer:
+		k = 22
+	case *types.Slice:
+		k = 23
+	case *types.Struct:
+		k = 25
+	}
+	return uint(k)
+}
+
+func isNilValue(v value) bool {
+	switch x := v.(type) {
+	case *value:
+		return x == nil
+	case []value:
+		return x == nil
+	case *smap:
+		return x == nil
+	case *chanObj:
+		return x == nil
+	case *ssa.Function:
+		return x == nil
+	case iface:
+		return x.t == nil
+	case *closure:
+		return x == nil
+	}
+	return false
 }
 
 func reflectMethod(name string, t types.Type, fn *ssa.Function, idx int) value {
@@ -122,6 +257,56 @@ func init() {
 			panic(targetPanic{iface{types.Typ[types.String], "reflect: call of reflect.Value.Type on zero Value"}})
 		}
 		return rtypeIface(b.typ)
+	}
+	intrinsics["(reflect.Value).Kind"] = func(fr *frame, a []value) value {
+		b := rboxOf(a[0])
+		if b.typ == nil {
+			return uint(0)
+		}
+		return reflectKind(b.typ)
+	}
+	intrinsics["(reflect.Value).IsNil"] = func(fr *frame, a []value) value {
+		b := rboxOf(a[0])
+		if b.typ == nil {
+			panic(targetPanic{iface{types.Typ[types.String], "reflect: call of reflect.Value.IsNil on zero Value"}})
+		}
+		return isNilValue(b.v)
+	}
+	intrinsics["(reflect.Value).IsZero"] = func(fr *frame, a []value) value {
+		b := rboxOf(a[0])
+		return isNilValue(b.v) || truth(eqv(b.typ, b.v, zero(b.typ)), "reflect.IsZero")
+	}
+	intrinsics["(reflect.Value).Len"] = func(fr *frame, a []value) value {
+		b := rboxOf(a[0])
+		switch x := b.v.(type) {
+		case []value:
+			return len(x)
+		case *smap:
+			return x.len()
+		case string, symstr, fmtstr:
+			return strLen(b.v)
+		case array:
+			return len(x)
+		}
+		panic(engineErr{"reflect.Value.Len"})
+	}
+	intrinsics["(reflect.Value).Elem"] = func(fr *frame, a []value) value {
+		b := rboxOf(a[0])
+		switch u := b.typ.Underlying().(type) {
+		case *types.Pointer:
+			p := b.v.(*value)
+			if p == nil {
+				return structure{(*value)(nil), unsafe.Pointer(nil), uintptr(0)}
+			}
+			return mkRValue(load(u.Elem(), p), u.Elem())
+		case *types.Interface:
+			it := b.v.(iface)
+			if it.t == nil {
+				return structure{(*value)(nil), unsafe.Pointer(nil), uintptr(0)}
+			}
+			return mkRValue(it.v, it.t)
+		}
+		panic(engineErr{"reflect.Value.Elem"})
 	}
 	intrinsics["(reflect.Value).IsValid"] = func(fr *frame, a []value) value { return rboxOf(a[0]).typ != nil }
 	intrinsics["(reflect.Value).Interface"] = func(fr *frame, a []value) value {
